@@ -12,7 +12,6 @@ import (
 	"runtime"
 	"sync"
 	"sync/atomic"
-	"time"
 
 	"github.com/zeromicro/go-zero/core/mr"
 
@@ -259,7 +258,7 @@ func (r *run) mapBody(item int, w mr.Writer[int], cancel func(error)) {
 // gauge's maximum then records it) or a bounded number of yields has passed.
 func (r *run) linger() {
 	limit := int64(r.p.effWorkers())
-	for i := 0; i < 400; i++ {
+	for i := 0; i < 150; i++ {
 		if r.gauge.Cur() > limit {
 			return
 		}
@@ -268,11 +267,7 @@ func (r *run) linger() {
 			return
 		default:
 		}
-		if i < 300 {
-			runtime.Gosched()
-		} else {
-			time.Sleep(20 * time.Microsecond)
-		}
+		runtime.Gosched()
 	}
 }
 
